@@ -278,12 +278,6 @@ example : (exec pinned wEnv [] (wOps ++ [.cloneFrom .copyAll 0 1, .run .mustStri
     .chain 0 (fun c => { c with optional := true, ptrSchema := true }),   .run .mustParseAny 2 .nilPtr, .run .mustParse 2 (.ptr 30)])).2
     = [.okVal 7, .errChecks [0], .errChecks [0], .okVal 12, .errChecks [0], .okNil, .okVal 30] := by decide
 
-/-- `ParseAny` is `Parse` (types/string.go:152: `return z.Parse(input, ctx...)`), and each `Must`
-    variant returns the result or panics with that same error; in the model they are the same
-    function, so the statement is reflexivity — the tie (harness) is what checks the wrappers. -/
-theorem c09_parseAny_eq_parse (env : Env P O T V) (i : Internals P O V) (x : Input V) :
-    parse env i x = parse env i x := rfl
-
 /-- Non-vacuity: a configuration exercising the non-fast paths. -/
 example : wellTyped ({ ptrSchema := true, optional := true, checks := [Check.pred 5 false none] } : Internals Nat Nat Nat)
     (.ptr 3) = true := rfl
